@@ -9,6 +9,7 @@ import (
 	"net/http/httptest"
 	"net/url"
 	"reflect"
+	"strconv"
 	"strings"
 	"testing/iotest"
 
@@ -81,7 +82,27 @@ func renderReplay(s *Summary, raw json.RawMessage) {
 		return
 	}
 	for _, v := range renderValues(c.V) {
-		renderHelper(s, &c, v)
+		if c.Preset {
+			// "the type the caller has set" is any text - also one that reads exactly like a type the renderers write themselves
+			for _, pt := range []string{"preset/type", "text/plain; charset=utf-8", "application/json; charset=utf-8", "application/xml; charset=utf-8", "text/html; charset=utf-8"} {
+				cc := c
+				if cc.Predict.Ctype == "preset/type" {
+					cc.Predict.Ctype = pt
+				}
+				renderHelper(s, &cc, v, pt)
+			}
+			continue
+		}
+		renderHelper(s, &c, v, "")
+		if c.H == "HTTPError" {
+			// the failure path of a handler that had already announced the size of the answer it meant to give: the error
+			// message is what the client gets, whole (net/http enforces an announced length)
+			for _, n := range []string{"57", "0", "3"} {
+				renderAnnounce = n
+				renderHelper(s, &c, v, "")
+				renderAnnounce = ""
+			}
+		}
 	}
 	if c.V == "struct" && !c.Preset && c.Status == 200 {
 		renderOdd(s, &c)
@@ -168,13 +189,19 @@ func asBytes(v any) []byte {
 	return nil
 }
 
-func renderHelper(s *Summary, c *renderCase, v any) {
+// renderAnnounce: a Content-Length the handler sets before it calls the helper ("" = none)
+var renderAnnounce string
+
+func renderHelper(s *Summary, c *renderCase, v any, presetText string) {
 	var retErr error
 	var ctxErrs []error
 	r := rux.New()
 	r.GET("/r", func(cx *rux.Context) {
 		if c.Preset {
-			cx.SetHeader("Content-Type", "preset/type")
+			cx.SetHeader("Content-Type", presetText)
+		}
+		if renderAnnounce != "" {
+			cx.SetHeader("Content-Length", renderAnnounce)
 		}
 		switch c.H {
 		case "Text":
@@ -231,7 +258,7 @@ func renderHelper(s *Summary, c *renderCase, v any) {
 	}()
 	s.Compared++
 	desc := func(aspect, what string) map[string]any {
-		return map[string]any{"kind": "render", "aspect": aspect, "helper": c.H, "what": fmt.Sprintf("%s(status %d, preset Content-Type=%v, value %#v): %s", c.H, c.Status, c.Preset, v, what)}
+		return map[string]any{"kind": "render", "aspect": aspect, "helper": c.H, "what": fmt.Sprintf("%s(status %d, preset Content-Type=%q, value %#v): %s", c.H, c.Status, presetText, v, what)}
 	}
 	if pan != nil {
 		s.mismatch(desc("panic", fmt.Sprintf("panicked: %v", pan)), c)
@@ -241,7 +268,7 @@ func renderHelper(s *Summary, c *renderCase, v any) {
 		if retErr == nil && len(ctxErrs) == 0 {
 			s.mismatch(desc("error", "the value cannot be encoded, but neither Context.Errors nor the returned error reports it"), c)
 		}
-		if ct := w.Header().Get("Content-Type"); c.Preset && ct != "preset/type" {
+		if ct := w.Header().Get("Content-Type"); c.Preset && ct != presetText {
 			// a Content-Type the caller has set is the caller's, also when the encoder gives up
 			s.mismatch(desc("content-type", fmt.Sprintf("the value cannot be encoded; afterwards the Content-Type set by the caller has become %q", ct)), c)
 		}
@@ -255,11 +282,15 @@ func renderHelper(s *Summary, c *renderCase, v any) {
 		s.mismatch(desc("status", fmt.Sprintf("status %d, expected %d", w.Code, c.Predict.Status)), c)
 		return
 	}
-	if ct := w.Header().Get("Content-Type"); c.Predict.Ctype != "*" && ct != c.Predict.Ctype && !(c.Predict.Ctype == "" && !c.Preset) && !(c.Preset && !strings.HasPrefix(c.H, "render.") && c.Predict.Ctype == "" && ct == "preset/type") {
+	if ct := w.Header().Get("Content-Type"); c.Predict.Ctype != "*" && ct != c.Predict.Ctype && !(c.Predict.Ctype == "" && !c.Preset) && !(c.Preset && !strings.HasPrefix(c.H, "render.") && c.Predict.Ctype == "" && ct == presetText) {
 		s.mismatch(desc("content-type", fmt.Sprintf("Content-Type %q, expected %q", ct, c.Predict.Ctype)), c)
 		return
 	}
 	body := w.Body.Bytes()
+	if cl := w.Header().Get("Content-Length"); cl != "" && cl != strconv.Itoa(len(body)) && c.Predict.Body != "redirect" {
+		s.mismatch(desc("body", fmt.Sprintf("the response announces Content-Length %s (set by the handler before the helper: %q) and carries %d bytes: a server cuts it or drops the connection", cl, renderAnnounce, len(body))), c)
+		return
+	}
 	same := func(got any) bool { return reflect.DeepEqual(got, v) }
 	decodeJSON := func(bs []byte) bool {
 		switch v.(type) {
